@@ -65,6 +65,8 @@ def main(args) -> int:
         return determinism(args)
     if args.what == "sensitivity":
         return sensitivity(args)
+    if args.what == "models":
+        return models(args)
     return stub(args)
 
 
@@ -164,3 +166,53 @@ def stub(args) -> int:
         cell.close()
     print(json.dumps(msg))
     return 0 if msg.get("mismatches") == 0 and msg.get("models", 0) > 0 else 1
+
+
+# ---------------------------------------------------------------------------------------------- reference models
+
+def models(args) -> int:
+    """Internal consistency of the oracles (no code under test involved): the double-sum scorer agrees with the
+    cost-table scorer; the subset DP agrees with brute force; the enumeration of rankings with ties has the
+    Fubini cardinalities; every neighbour differs from its origin by exactly one element's placement."""
+    import random
+    import numpy as np
+    from . import gen, model
+    r = random.Random(int(os.environ.get("VERIF_SEED", "0")) + 99)
+    bad = 0
+    fub = [1, 1, 3, 13, 75, 541, 4683, 47293]
+    for n, want in enumerate(fub):
+        got = len(model.weak_orders(n))
+        if got != want:
+            print(f"weak_orders({n}) = {got}, expected {want}")
+            bad += 1
+    for t in range(args.runs or 300):
+        spec = gen.gen_dataset(r, n_max=6, m_max=5)
+        sch = gen.gen_scheme(r, dyadic=True)
+        mr = model.normalise(spec["rankings"])
+        elems = model.universe(mr)
+        cost = model.ref_cost(mr, elems, sch["B"], sch["T"])
+        wo, sc = model.score_all(cost)
+        i = r.randrange(len(wo))
+        cand = model.vec_to_ranking([int(v) for v in wo[i]], elems)
+        s1 = model.ref_score(cand, mr, sch["B"], sch["T"])
+        s2 = model.score_from_cost(model.ranking_to_vec(cand, elems), cost)
+        if abs(s1 - s2) > 1e-12 or abs(s1 - float(sc[i])) > 1e-12:
+            print("scorers disagree", s1, s2, float(sc[i]))
+            bad += 1
+        if abs(model.opt_value_dp(cost) - float(sc.min())) > 1e-12:
+            print("DP and brute force disagree")
+            bad += 1
+        for x in range(len(elems)):
+            for y in range(len(elems)):
+                if x != y and (cost[x][y][0] != cost[y][x][1] or cost[x][y][2] != cost[y][x][2]):
+                    print("reference cost table not mirror-consistent")
+                    bad += 1
+        for e, nb in model.neighbourhood(cand):
+            moved = [k for k in elems if model.bucket_of(nb)[k] != model.bucket_of(cand)[k]]
+            rest_c = tuple(b - {e} for b in cand if b - {e})
+            rest_n = tuple(b - {e} for b in nb if b - {e})
+            if rest_c != rest_n:
+                print("neighbour changes more than one element", moved)
+                bad += 1
+    print("MODELS", "OK" if not bad else f"{bad} inconsistencies")
+    return 0 if not bad else 1
